@@ -272,6 +272,33 @@ pub fn run(rep: &mut Rep) {
         b2[off..off + 8].copy_from_slice(&enc_u64(u64::MAX - 7));
         ws.push(("bits-count=2^64-8".into(), b2, None));
     }
+    {
+        // every declared element count 0..=48 and every declared direction count 0..=48 on an otherwise
+        // well-formed witness (the true counts are 20): all but 20 must be errors
+        let b = enc_witness(&good_w);
+        let off = 96 + 8 + 32 * 20;
+        for n in 0u64..=48 {
+            if n != 20 {
+                let mut b2 = b.clone();
+                b2[96..104].copy_from_slice(&enc_u64(n));
+                ws.push((format!("path-count-sweep@{n}"), b2, None));
+                let mut b2 = b.clone();
+                b2[off..off + 8].copy_from_slice(&enc_u64(n));
+                ws.push((format!("bits-count-sweep@{n}"), b2, None));
+            }
+        }
+        // counts around the number of elements / bytes that would fit in the remaining buffer
+        let rem_el = ((b.len() - 104) / 32) as u64;
+        let rem_by = (b.len() - off - 8) as u64;
+        for d in [-2i64, -1, 0, 1, 2] {
+            let mut b2 = b.clone();
+            b2[96..104].copy_from_slice(&enc_u64((rem_el as i64 + d) as u64));
+            ws.push((format!("path-count-near-buffer-end@{d}"), b2, None));
+            let mut b2 = b.clone();
+            b2[off..off + 8].copy_from_slice(&enc_u64((rem_by as i64 + d) as u64));
+            ws.push((format!("bits-count-near-buffer-end@{d}"), b2, None));
+        }
+    }
     for k in 0..(if thorough { 300 } else { 30 }) {
         let len = [0usize, 10, 96, 104, 200, 840, 1000][k % 7];
         ws.push(("random-bytes".into(), rand_bytes(&mut rng, len), None));
